@@ -2,6 +2,7 @@
 // descriptor getters only and prints it in a canonical line format on fd 3.
 //   E <name> abstract=<0|1> supers=<a,b> subs=<c,d>
 //   A <entity> <k> <name> kind=<explicit|derived|redefining|inverse> opt=<0|1> type=<TypeName> prim=<n> aggr=<0|1>
+//   S <entity> <attribute> <structure of its aggregate type: kind[b1:b2]u<unique>o<optional> ... /<element type>>
 //   V <entity> <k> <name> inv_entity=<e> inv_attr=<a>
 //   I <entity> <k> <attribute name of a fresh instance>
 //   T <name> fund=<n> desc=<hex of Description>  [enum=<a,b,c>] [select=<a,b>] [aggr=<kind> b1=<n> b2=<n> uniq=<0|1> optl=<0|1> elem=<type name>] [ref=<name>]
@@ -16,6 +17,56 @@ static std::string lower( const char * s ) {
         o[i] = tolower( o[i] );
     }
     return o;
+}
+
+// structure of an aggregate type as the descriptors hold it:  kind[b1:b2]u<unique>o<optional elements> ... /<element type name>
+static std::string aggr_struct( const TypeDescriptor * t, int depth = 0 ) {
+    if( !t ) {
+        return "?";
+    }
+    const TypeDescriptor * nr = t->NonRefTypeDescriptor();
+    if( !t->IsAggrType() || !nr || depth > 6 ) {
+        return "/" + lower( t->Name() );
+    }
+    AggrTypeDescriptor * a = ( AggrTypeDescriptor * ) nr;
+    const char * kind = "aggr";
+    int optl = 0;
+    switch( nr->FundamentalType() ) {
+        case ARRAY_TYPE:
+            kind = "array";
+            optl = ( ( ArrayTypeDescriptor * ) nr )->OptionalElements().asInt() == LTrue ? 1 : 0;
+            break;
+        case LIST_TYPE:
+            kind = "list";
+            break;
+        case SET_TYPE:
+            kind = "set";
+            break;
+        case BAG_TYPE:
+            kind = "bag";
+            break;
+        default:
+            break;
+    }
+    char buf[200];
+    char b1[40], b2[40];
+    // a bound the schema does not give stays unset in the descriptor: EXPRESS defaults [0:?]
+    if( a->Bound1Type() == bound_constant ) {
+        snprintf( b1, sizeof b1, "%ld", ( long ) a->Bound1() );
+    } else if( a->Bound1Type() == bound_unset ) {
+        snprintf( b1, sizeof b1, "0" );
+    } else {
+        snprintf( b1, sizeof b1, "?%d", ( int ) a->Bound1Type() );
+    }
+    if( a->Bound2Type() == bound_constant ) {
+        snprintf( b2, sizeof b2, "%ld", ( long ) a->Bound2() );
+    } else if( a->Bound2Type() == bound_unset ) {
+        snprintf( b2, sizeof b2, "2147483647" );
+    } else {
+        snprintf( b2, sizeof b2, "?%d", ( int ) a->Bound2Type() );
+    }
+    snprintf( buf, sizeof buf, "%s[%s:%s]u%do%d", kind, b1, b2, a->UniqueElements().asInt() == LTrue ? 1 : 0, optl );
+    return std::string( buf ) + aggr_struct( a->AggrElemTypeDescriptor(), depth + 1 );
 }
 
 static void dump_type( const TypeDescriptor * t ) {
@@ -74,6 +125,7 @@ static void dump_type( const TypeDescriptor * t ) {
             fprintf( g_out, " b2=?%d", ( int ) a->Bound2Type() );
         }
         fprintf( g_out, " uniq=%d", a->UniqueElements().asInt() == LTrue ? 1 : 0 );
+        fprintf( g_out, " struct=%s", aggr_struct( t ).c_str() );
         const TypeDescriptor * el = a->AggrElemTypeDescriptor();
         fprintf( g_out, " elem=%s", el ? lower( el->Name() ).c_str() : "?" );
     }
@@ -121,6 +173,9 @@ int main( int argc, char ** argv ) {
                     }
                     fprintf( g_out, "A %s %d %s kind=%s opt=%d type=%s prim=%d aggr=%d\n", lower( ed->Name() ).c_str(), k++, lower( ad->Name() ).c_str(), kind,
                              ad->Optional().asInt() == LTrue ? 1 : 0, lower( ad->TypeName().c_str() ).c_str(), ( int ) ad->NonRefType(), ad->IsAggrType() ? 1 : 0 );
+                    if( ad->IsAggrType() && ad->DomainType() ) {
+                        fprintf( g_out, "S %s %s %s\n", lower( ed->Name() ).c_str(), lower( ad->Name() ).c_str(), aggr_struct( ad->DomainType() ).c_str() );
+                    }
                     an = ( AttrDescLinkNode * ) an->NextNode();
                 }
                 Inverse_attributeLinkNode * in = ( Inverse_attributeLinkNode * ) ed->InverseAttr().GetHead();
